@@ -58,6 +58,13 @@ CHECKS = {
                      "changes, released frames, report blocks) must coincide and the wrapped run must satisfy its own property's oracle. The "
                      "exhaustive serial-arithmetic sub-claim is a pure function and is not decided here.",
                 note="NACK generation and the sender's retransmission history are covered by the C11 runs that start at the wrap, not by a pair"),
+    "C11": dict(engine="media_sim", design="10/C11", technique="deterministic simulation: real sender -> real DTLS/SRTP -> real receiver over a seeded faulty network; decoder-seam tap compared byte-for-byte with the sender's own packetised frames; bounded-liveness oracle when feedback and retransmissions get through",
+                text="Seeded exploration of loss/duplication/reordering schedules on the media path (RTP, RTCP feedback and retransmissions "
+                     "alike in safety runs; first transmissions only in liveness runs), frames of 1-8 packets, VP8 and H.264, RTX negotiated or "
+                     "not, sequence/timestamp origins anywhere incl. just before the wrap: every frame handed to the decoder is byte-identical "
+                     "to a sent frame (or a packet-aligned tail right after start/discard), in sending order; retransmissions are RTX copies of "
+                     "the original when negotiated, verbatim otherwise; a NACK lists <=128 packets; nothing kills a transport or a media task; "
+                     "in liveness runs every frame is eventually delivered."),
 }
 
 NOT_APPLICABLE = [
@@ -69,6 +76,8 @@ NOT_APPLICABLE = [
 LEVELS = {"C05": "fault_enumeration", "C19": "fault_enumeration"}
 
 ENGINES = [
+    {"name": "media_sim", "path": "simrtc/engines/media_sim.py", "serves_properties": ["C11", "C04"],
+     "kind_free_text": "real RTCRtpSender -> real RTCDtlsTransport pair (OpenSSL DTLS, libsrtp) over SimIceConnection/SimNet -> real RTCRtpReceiver, decoder seam tapped; virtual time"},
     {"name": "diff_sim", "path": "simrtc/engines/diff_sim.py", "serves_properties": ["C17"],
      "kind_free_text": "pairs of sctp_sim / history_sim runs that differ only in sequence-number origins, compared event by event"},
     {"name": "history_sim", "path": "simrtc/engines/history_sim.py", "serves_properties": ["C10", "C12", "C15", "C18", "C17"],
